@@ -14,10 +14,10 @@ void log_err(const char *f, ...) { (void)f; }
 void log_warn(const char *f, ...) { (void)f; }
 
 /* zlib contract stub: inflate consumes <= avail_in and produces <= avail_out bytes, any return code */
-static int inflate_calls;
+static int inflate_calls, inflate_flush_seen = -1;
 int inflate(z_streamp strm, int flush)
 {
-	(void)flush;
+	inflate_flush_seen = flush;
 	inflate_calls++;
 	unsigned in = nd_uint(), out = nd_uint();
 	__CPROVER_assume(in <= strm->avail_in && out <= strm->avail_out);
@@ -64,7 +64,10 @@ void harness_decompress(void)
 	__CPROVER_assume(msg != 0);
 	uint8_t *free_ptr = 0; size_t have = 0;
 	WS.extension_compression.client_no_context_takeover = nd_bool();
+	WS.extension_compression.server_no_context_takeover = nd_bool();
 	enum websocket_callback_return r = private_decompress(&WS, msg, len, &free_ptr, &have);
+	/* the decompressor handles the CLIENT's stream: its context is governed by client_no_context_takeover */
+	if (inflate_calls > 0) CHECK(inflate_flush_seen == (WS.extension_compression.client_no_context_takeover ? Z_FINISH : Z_SYNC_FLUSH), "C19.decompressor_context_follows_client_no_context_takeover");
 	if (r == WS_OK) { CHECK(free_ptr != 0 || len == 0, "C19.output_buffer_returned"); REACH("decompressed"); }
 	CHECK(inflate_calls <= 4, "C19.inflate_loop_bounded_here");
 	free(free_ptr); free(msg);
@@ -74,10 +77,10 @@ void harness_decompress(void)
 /* the deflate driver: output into a caller-supplied buffer of 2 * length bytes, removal of the 4-byte sync-flush tail.
  * zlib contract stub: deflate consumes <= avail_in and produces <= avail_out bytes (deflate writes what fits and
  * keeps the rest pending: zlib.h "deflate"), any return code. */
-static int deflate_calls, deflate_ends, deflate_resets;
+static int deflate_calls, deflate_ends, deflate_resets, deflate_flush_seen = -1;
 int deflate(z_streamp strm, int flush)
 {
-	(void)flush;
+	deflate_flush_seen = flush;
 	deflate_calls++;
 	unsigned in = nd_uint(), out = nd_uint();
 	__CPROVER_assume(in <= strm->avail_in && out <= strm->avail_out);
@@ -93,10 +96,14 @@ void harness_compress(void)
 	WS.extension_compression.compression_level = 2;
 	WS.extension_compression.strm_comp = &dp;
 	WS.extension_compression.server_no_context_takeover = nd_bool();
+	WS.extension_compression.client_no_context_takeover = nd_bool();
 	size_t len = nd_size(); __CPROVER_assume(len <= 4);
 	uint8_t *src = malloc(len ? len : 1), *dest = malloc(len * 2 ? len * 2 : 1);    /* the caller's contract: dest holds 2 * length bytes */
 	__CPROVER_assume(src != 0 && dest != 0);
 	int n = websocket_compress(&WS, dest, src, len);
+	/* RFC 7692 7.1.1.1: with server_no_context_takeover the server's compressor starts every message with an empty window
+	   (Z_FULL_FLUSH); the client's parameter says nothing about it */
+	CHECK(deflate_calls == 1 && deflate_flush_seen == (WS.extension_compression.server_no_context_takeover ? Z_FULL_FLUSH : Z_SYNC_FLUSH), "C19.compressor_context_follows_server_no_context_takeover");
 	/* memory safety: CBMC's bounds checks on dest (exact-size heap object). The result is a length inside dest, or a failure */
 	CHECK(n == -1 || (n >= 0 && (size_t)n + 4 <= 2 * len), "C19.compressed_length_lies_inside_the_output_buffer_or_failure_is_reported");
 	if (n >= 0) REACH("compressed"); else REACH("failed");
@@ -135,5 +142,25 @@ void harness_fragmented(void)
 		REACH("rejected");
 	}
 	free(f1); free(f2);
+	WITNESS_END();
+}
+
+/* the streams are set up with the negotiated windows: the decompressor (client -> server) with client_max_window_bits,
+ * the compressor (server -> client) with server_max_window_bits (8 is raised to 9: zlib's deflate does not support 8) */
+static int infl_bits = 999, defl_bits = 999, infl_inits, defl_inits;
+int inflateInit2_(z_streamp strm, int windowBits, const char *version, int stream_size) { (void)strm; (void)version; (void)stream_size; infl_bits = windowBits; infl_inits++; return (int)nd_range(-6, 0); }
+int deflateInit2_(z_streamp strm, int level, int method, int windowBits, int memLevel, int strategy, const char *version, int stream_size)
+{ (void)strm; (void)level; (void)method; (void)memLevel; (void)strategy; (void)version; (void)stream_size; defl_bits = windowBits; defl_inits++; return (int)nd_range(-6, 0); }
+void harness_alloc_compression(void)
+{
+	static z_stream defl; static z_stream *dp = &defl;
+	WS.extension_compression.strm_comp = &dp;
+	WS.extension_compression.compression_level = (unsigned)nd_range(1, 3);
+	int cb = (int)nd_range(8, 15), sb = (int)nd_range(8, 15);
+	WS.extension_compression.client_max_window_bits = cb;
+	WS.extension_compression.server_max_window_bits = sb;
+	alloc_compression(&WS);
+	CHECK(infl_inits == 1 && infl_bits == -cb, "C19.decompressor_window_is_the_negotiated_client_window");
+	if (defl_inits) { CHECK(defl_inits == 1 && defl_bits == -(sb == 8 ? 9 : sb), "C19.compressor_window_is_the_negotiated_server_window"); REACH("both_streams"); }
 	WITNESS_END();
 }
